@@ -541,13 +541,13 @@ pub fn run_server_case(prop: &'static str, case: &ServerCase) -> Verdict {
             let mut polls = 0;
             // (few, long sleeps: a thread that stays behind in a timed loop of its own makes every
             // virtual second cost steps)
-            while live > 0 && polls < 4 {
-                rt::thread::sleep(Duration::from_millis(if polls == 0 { 5500 } else { 1000 }));
+            while live > 0 && polls < 3 {
+                rt::thread::sleep(Duration::from_millis([5500u64, 5000, 4500][polls]));
                 live = rt::probe::live_lib_threads();
                 polls += 1;
             }
             if live > 0 {
-                viol("threads-left-after-drop", format!("{} library threads are still alive 8.5 s (virtual) after the server was dropped and its last connection ended (drop mode {})", live, c.drop_mode));
+                viol("threads-left-after-drop", format!("{} library threads are still alive 15 s (virtual) after the server was dropped and its last connection ended (drop mode {})", live, c.drop_mode));
             }
         }
         {
